@@ -132,7 +132,7 @@ struct Env {
     laddrs: Vec<LAddr>,
     lfds: Vec<i32>,
     clients: HashMap<u64, Client>,
-    tcp_peers: HashMap<SocketAddr, u64>,
+    tcp_peers: HashMap<(SocketAddr, SocketAddr), u64>,
     events: Vec<String>,
     pending_handles: Vec<AcceptHandle>,
 }
@@ -156,8 +156,10 @@ impl Env {
     fn identify(&mut self, io: &MioStream) -> u64 {
         match io {
             MioStream::Tcp(s) => {
-                let peer = s.peer_addr().expect("peer_addr");
-                *self.tcp_peers.get(&peer).expect("unknown tcp peer")
+                // (listener address, client address): a client port can be reused towards another listener
+                let key = (s.local_addr().expect("local_addr"), s.peer_addr().expect("peer_addr"));
+                let _ = socket2::SockRef::from(s).set_linger(Some(Duration::ZERO));
+                *self.tcp_peers.get(&key).expect("unknown tcp peer")
             }
             MioStream::Uds(s) => {
                 let mut buf = [0u8; 8];
@@ -189,7 +191,9 @@ impl Env {
                 match &self.laddrs[tok] {
                     LAddr::Tcp(addr) => {
                         let s = std::net::TcpStream::connect(addr).expect("tcp connect");
-                        self.tcp_peers.insert(s.local_addr().unwrap(), cid);
+                        // no TIME_WAIT entries: thousands of cases would exhaust the ephemeral port range
+                        let _ = socket2::SockRef::from(&s).set_linger(Some(Duration::ZERO));
+                        self.tcp_peers.insert((*addr, s.local_addr().unwrap()), cid);
                         self.clients.insert(cid, Client::Tcp(s));
                     }
                     LAddr::Uds(path) => match StdUnixStream::connect(path) {
